@@ -52,6 +52,7 @@ type message struct {
 	Batch     bool       `json:"batch"`
 	Elems     []elemSpec `json:"elems"`
 	Lead      string     `json:"-"`
+	Cycle     bool       `json:"-"` // cancel with the key a subscription that an un-keyed unsubscribe aimed at
 	Garbage   string     `json:"garbage,omitempty"` // whole message is this text (no elements)
 	HTTP      httpOpts   `json:"http"`
 }
@@ -452,9 +453,10 @@ func genBody(t *rapid.T, kind, tr string, freeLive *[]int) body {
 	return b
 }
 
-var garbageElems = []string{"null", "5", `"probe_ping"`, "[]", "{}", "true", `[{"jsonrpc":"2.0","id":1,"method":"probe_ping"}]`}
+// (no arrays here: as a single message an array is a batch; see garbageMessages)
+var garbageElems = []string{"null", "5", `"probe_ping"`, "{}", "true", "1.5e3"}
 
-var garbageMessages = []string{"nope", "}", "]", `"probe_ping"`, "42", "null", "true", "{}", "[[]]", "[null]", "[5]", `["x"]`, "[]", `{"key":}`, "[,]"}
+var garbageMessages = []string{"nope", "}", "]", `"probe_ping"`, "42", "null", "true", "{}", "[[]]", "[null]", "[5]", `["x"]`, "[]", `{"key":}`, "[,]", `[[{"jsonrpc":"2.0","id":1,"method":"probe_ping"}]]`}
 
 func render(ms []member, spaced bool) string {
 	var sb strings.Builder
@@ -494,6 +496,11 @@ func genElem(t *rapid.T, k, tr string, seq int, wantKeyed bool, freeLive *[]int)
 	} else {
 		kv = rapid.SampledFrom(unkeyedVariants).Draw(t, "unkeyedVariant")
 	}
+	return buildElem(t, k, tr, kind, kv, seq, freeLive)
+}
+
+// buildElem renders an element of the given kind with the given key variant.
+func buildElem(t *rapid.T, k, tr, kind string, kv keyVariant, seq int, freeLive *[]int) elemSpec {
 	e := elemSpec{Kind: kind, KeyVar: kv.label, BadKeyType: kv.badType, Target: -1}
 	keyMembers := kv.members(t, k)
 	exact := one("key", jstr(k))
@@ -582,6 +589,7 @@ func genMessage(t *rapid.T, k string) *message {
 		}
 	}
 	m.Lead = rapid.SampledFrom([]string{"", "", "", " ", "\n\t ", "\r\n"}).Draw(t, "lead")
+	m.Cycle = rapid.Bool().Draw(t, "cycle")
 	shape := rapid.IntRange(0, 19).Draw(t, "shape")
 	if shape == 0 {
 		m.Garbage = rapid.SampledFrom(garbageMessages).Draw(t, "garbageMessage")
